@@ -56,12 +56,18 @@ func (f *Typep) Call(s *slip.Scope, args slip.List, depth int) slip.Object {
 	}
 	switch ta := args[0].(type) {
 	case nil:
-		if strings.EqualFold("null", string(sym)) {
+		// nil is the empty list and a symbol as well as the only object of type null.
+		switch strings.ToLower(string(sym)) {
+		case "null", "symbol", "list", "sequence":
 			return slip.True
 		}
 	case slip.List:
-		if len(ta) == 0 && strings.EqualFold("null", string(sym)) {
-			return slip.True
+		if len(ta) == 0 {
+			// The empty list is nil however it was made.
+			switch strings.ToLower(string(sym)) {
+			case "null", "symbol":
+				return slip.True
+			}
 		}
 		for _, h := range ta.Hierarchy() {
 			if strings.EqualFold(string(h), string(sym)) {
